@@ -143,11 +143,19 @@ fn failures(suite: &str, ops: &[Tree], driver: &Path, scratch: &Path, tag: &str)
 fn shrink(suite: &str, ops: &[Tree], target: &Failure, driver: &Path, scratch: &Path) -> Vec<Tree> {
     let mut cur: Vec<Tree> = ops.to_vec();
     let mut budget = 400usize;
+    // and a budget of time: histories with hundreds of sealed datagrams are expensive to re-run on the model
+    let started = std::time::Instant::now();
+    let spent_before = SHRINK_SPENT_MS.load(std::sync::atomic::Ordering::Relaxed);
+    let limit_ms: u64 = if spent_before > 240_000 { 0 } else { 45_000 };
     let mut chunk = (cur.len() / 2).max(1);
     while chunk >= 1 && budget > 0 {
         let mut i = 0;
         let mut progressed = false;
         while i < cur.len() && budget > 0 {
+            if started.elapsed().as_millis() as u64 >= limit_ms {
+                budget = 0;
+                break;
+            }
             let end = (i + chunk).min(cur.len());
             let mut cand = cur[..i].to_vec();
             cand.extend_from_slice(&cur[end..]);
@@ -167,8 +175,11 @@ fn shrink(suite: &str, ops: &[Tree], target: &Failure, driver: &Path, scratch: &
             chunk = if chunk == 1 { 1 } else { chunk / 2 };
         }
     }
+    SHRINK_SPENT_MS.fetch_add(started.elapsed().as_millis() as u64, std::sync::atomic::Ordering::Relaxed);
     cur
 }
+
+static SHRINK_SPENT_MS: std::sync::atomic::AtomicU64 = std::sync::atomic::AtomicU64::new(0);
 
 fn json_str(s: &str) -> String {
     let mut o = String::from("\"");
